@@ -164,6 +164,9 @@ struct Cfg {
     lying: bool,
     churn: bool,
     fault_free: bool,
+    /// per peer: how many correct following items the peer appends to every answer (headers and
+    /// the matching transaction lists) - a consistent over-answer, 0 = exact answers
+    over_answer: Vec<u32>,
 }
 
 fn rate(ctx: &mut Ctx, enabled: bool) -> u64 {
@@ -210,7 +213,19 @@ fn draw_cfg(ctx: &mut Ctx) -> Cfg {
         lying: faulty && ctx.tape.choose(3) == 1,
         churn: faulty && ctx.tape.choose(3) == 1,
         fault_free,
+        over_answer: Vec::new(),
     };
+    // in about 2 of 5 faulty runs some peers answer every request with more than was asked
+    // for: k correct following headers, and k matching transaction lists
+    let over = faulty && ctx.tape.choose(5) >= 3;
+    for i in 0..n_peers {
+        let k = if over && (i == 0 || ctx.tape.coin()) {
+            1 + ctx.tape.choose(3) as u32
+        } else {
+            0
+        };
+        cfg.over_answer.push(k);
+    }
     if bias27 && faulty {
         if cfg.f_exec == 0 && ctx.tape.coin() {
             cfg.f_exec = 25;
@@ -234,6 +249,8 @@ struct Peer {
     real_top: u32,
     /// heights for which the peer handed out a self-consistent forged block
     forged: BTreeMap<u32, Variant>,
+    /// appends this many correct following items to every answer
+    over_answer: u32,
 }
 
 #[derive(Clone, Copy, Debug, PartialEq, Eq, PartialOrd, Ord)]
@@ -627,6 +644,22 @@ impl SimState {
         };
         if list.as_ref().map_or(0, |l| l.len()) < n {
             ctx.fault("hdr.peer-lacks-heights");
+        } else if self.faults_on && self.peers[peer].over_answer > 0 {
+            // consistent over-answer: the correct headers that follow the requested range
+            let k = self.peers[peer].over_answer;
+            let extra: Vec<SealedBlockHeader> = (req.range.end..req.range.end + k)
+                .filter(|h| *h <= real_top)
+                .map(|h| {
+                    self.uni
+                        .header(h, forged.get(&h).copied().unwrap_or(Variant::Canonical))
+                })
+                .collect();
+            if !extra.is_empty() {
+                ctx.fault("hdr.over-answer");
+                if let Some(l) = &mut list {
+                    l.extend(extra);
+                }
+            }
         }
         let (m1, m2) = (req.mutation.clone(), req.mutation2.clone());
         self.apply_hdr_mutation(ctx, peer, &req.range, &mut list, &m1);
@@ -865,6 +898,19 @@ impl SimState {
             if base.is_empty() { None } else { Some(base) };
         if list.as_ref().map_or(0, |l| l.len()) < n {
             ctx.fault("txs.peer-lacks-heights");
+        } else if self.faults_on && self.peers[peer].over_answer > 0 {
+            // ... and the transaction lists that match those extra headers
+            let k = self.peers[peer].over_answer;
+            let extra: Vec<Vec<Transaction>> = (req.range.end..req.range.end + k)
+                .filter(|h| *h <= real_top)
+                .map(|h| uni.txs(h, forged.get(&h).copied().unwrap_or(Variant::Canonical)))
+                .collect();
+            if !extra.is_empty() {
+                ctx.fault("txs.over-answer");
+                if let Some(l) = &mut list {
+                    l.extend(extra);
+                }
+            }
         }
         match &req.mutation {
             TxMutation::None | TxMutation::Err => {}
@@ -887,8 +933,16 @@ impl SimState {
             TxMutation::Long => {
                 if let Some(l) = &mut list {
                     ctx.fault("txs.long");
-                    l.push(vec![script_tx(9999, 1)]);
-                    l.push(vec![]);
+                    if req.id % 2 == 0 {
+                        // the correct lists of the heights that follow the range
+                        let top = crate::chain::UNIVERSE_TOP;
+                        for h in req.range.end..(req.range.end + 2).min(top + 1) {
+                            l.push(uni.txs(h, Variant::Canonical));
+                        }
+                    } else {
+                        l.push(vec![script_tx(9999, 1)]);
+                        l.push(vec![]);
+                    }
                 }
             }
             TxMutation::MismatchAt(j, how) => {
@@ -1406,6 +1460,7 @@ pub fn run_service(ctx_ref: &mut Ctx) {
             announced: None,
             real_top: cfg.c0,
             forged: BTreeMap::new(),
+            over_answer: cfg.over_answer[i],
         })
         .collect();
     let enter = rt.enter();
